@@ -14,7 +14,6 @@ import (
 	"errors"
 	"fmt"
 	"math"
-	"reflect"
 	"sort"
 	"strconv"
 	"strings"
@@ -22,7 +21,6 @@ import (
 	"testing"
 	"testing/synctest"
 	"time"
-	"unsafe"
 
 	"cell2verif/hx"
 	"cell2verif/node"
@@ -38,7 +36,6 @@ import (
 	"github.com/dfklegend/cell2/node/service"
 	"github.com/dfklegend/cell2/nodectrl/define"
 	"github.com/dfklegend/cell2/pomelonet/common/conn/message"
-	"github.com/dfklegend/cell2/pomelonet/server/acceptor"
 )
 
 // ---------------------------------------------------------------- handler zoo
@@ -304,8 +301,16 @@ func start(h *hx.T) *world {
 		}
 		return v
 	})
-	// every session reads its packets through the REAL tcpPlayerConn.GetNextMessage (overlay shim)
-	node.Framing = acceptor.VerifTCPPlayerConn
+	// every session reads its packets through the TCP acceptor's REAL PlayerConn (GetNextMessage = its
+	// stream reassembly), built by the real accept loop around the server end of the pipe (rig_test.go;
+	// no overlay shim, no unexported identifier named)
+	if rig != nil && rig.mode == "listener-swap" {
+		node.Framing = rig.playerConn
+		h.Count("whitebox=listener-swap")
+	} else {
+		node.Framing = nil // the engine's verbatim copy of the framing
+		h.Count("whitebox=unavailable:tcp-framing")
+	}
 	n := node.Start(node.Options{
 		Services: []node.Svc{{Name: "gate-1", Type: "gate", Front: true}, {Name: "chat-1", Type: "chat"},
 			{Name: "chat-2", Type: "chat"}, {Name: "hall-1", Type: "hall"}, {Name: "hall-2", Type: "hall"}},
@@ -559,13 +564,14 @@ func (w *world) exec(op string) string {
 		}
 		return "ok"
 	case "wrap":
-		// the front's service-request counter is set k below MaxReqId (unexported field, written on
-		// the owner goroutine): the next forwarded requests are numbered across the wrap
+		// the front's service-request counter is set k below MaxReqId (unexported field, found by
+		// behaviour: rig_test.go reqCounter; written on the owner goroutine): the next forwarded requests are numbered across the wrap
 		k := hx.KVInt(ws, "k")
 		w.n.RunOn("gate-1", func(ns *service.NodeService) {
-			f := reflect.ValueOf(ns.Service).Elem().FieldByName("nextId")
-			if f.IsValid() {
-				*(*int32)(unsafe.Pointer(f.UnsafeAddr())) = as.MaxReqId - int32(k)
+			if p := reqCounter(ns.Service); p != nil {
+				*p = as.MaxReqId - int32(k)
+			} else {
+				w.h.Count("whitebox=unavailable:req-counter")
 			}
 		})
 		return "ok"
@@ -914,7 +920,11 @@ func allBodies(k int) []string {
 	return out
 }
 
+// rig: the TCP acceptor's accept loop serving a stand-in listener; assembled outside the bubble
+var rig *tcpRig
+
 func TestRun(t *testing.T) {
+	rig = newTCPRig()
 	synctest.Test(t, func(t *testing.T) {
 		h := hx.Open()
 		w := start(h)
